@@ -4,7 +4,8 @@
 # every use, so source mtimes survive and the scratch copy of the harness is rebuilt incrementally),
 # applies the patch there and runs the given checks against it. Calls are serialised with flock.
 # Evidence and work files go to the scratch area. `tools/mutcheck.sh --clean` removes everything.
-ROOT=/tmp/gvmut
+ROOT=${MUT_ROOT:-/tmp/gvmut}
+V=${VERIF_ROOT:-/verif}   # which copy of the framework runs the checks (a snapshot worktree keeps agents' in-progress edits out)
 if [ "$1" = "--clean" ]; then
   git -C /repo worktree remove --force $ROOT/repo 2>/dev/null
   rm -rf $ROOT; git -C /repo worktree prune; exit 0
@@ -19,18 +20,18 @@ fi
 (cd $ROOT/repo && git checkout -q --detach $(git -C /repo rev-parse HEAD) && git checkout -q -- . && git clean -fdq)
 (cd $ROOT/repo && git apply "$PATCH") || { echo "mutcheck: patch does not apply"; exit 2; }
 mkdir -p $ROOT/harness/.cargo
-rsync -a --delete /verif/harness/src/ $ROOT/harness/src/
-cp /verif/harness/Cargo.lock $ROOT/harness/Cargo.lock
-sed "s|/repo/|$ROOT/repo/|g" /verif/harness/Cargo.toml > $ROOT/harness/Cargo.toml.new
+rsync -a --delete $V/harness/src/ $ROOT/harness/src/
+cp $V/harness/Cargo.lock $ROOT/harness/Cargo.lock
+sed "s|/repo/|$ROOT/repo/|g" $V/harness/Cargo.toml > $ROOT/harness/Cargo.toml.new
 cmp -s $ROOT/harness/Cargo.toml.new $ROOT/harness/Cargo.toml || mv $ROOT/harness/Cargo.toml.new $ROOT/harness/Cargo.toml
-cp /verif/harness/.cargo/config.toml $ROOT/harness/.cargo/config.toml
+cp $V/harness/.cargo/config.toml $ROOT/harness/.cargo/config.toml
 rc=0
 rm -rf $ROOT/work $ROOT/evidence
 for c in "$@"; do
-  VERIF_REPO=$ROOT/repo VERIF_HARNESS_DIR=$ROOT/harness VERIF_WORKDIR=$ROOT/work VERIF_EVIDENCE_DIR=$ROOT/evidence /verif/check $c ${MUT_TIER:+--tier $MUT_TIER} || rc=1
+  VERIF_REPO=$ROOT/repo VERIF_HARNESS_DIR=$ROOT/harness VERIF_WORKDIR=$ROOT/work VERIF_EVIDENCE_DIR=$ROOT/evidence $V/check $c ${MUT_TIER:+--tier $MUT_TIER} || rc=1
 done
 if [ -n "$MUT_KEEP" ]; then mkdir -p /tmp/mutkeep && rm -rf /tmp/mutkeep/work && cp -r $ROOT/work /tmp/mutkeep/work; fi
 (cd $ROOT/repo && git checkout -q -- . && git clean -fdq)
 # restore generated tables for the real tree
-python3 /verif/tools/gen_tables.py
+python3 $V/tools/gen_tables.py
 exit $rc
